@@ -12,24 +12,27 @@
 EXTENDS Naturals, Integers, Sequences, FiniteSets, TLC, Json, IOUtils
 Trace == ndJsonDeserialize(IOEnv.VERIF_TRACE)
 N == Len(Trace)
-VARIABLES l, lim, live, tokens, cap, once
-vars == <<l, lim, live, tokens, cap, once>>
+VARIABLES l, lim, live, tokens, cap, once, unl
+vars == <<l, lim, live, tokens, cap, once, unl>>
 Ev == Trace[l]
 Is(e) == l <= N /\ Ev.ev = e
 Step == l' = l + 1 /\ TLCSet(1, l)
-Init == l = 1 /\ lim = 0 /\ live = 0 /\ tokens = 0 /\ cap = 0 /\ once = 0 /\ TLCSet(1, 0)
-Reset == Is("Reset") /\ lim' = 0 /\ live' = 0 /\ tokens' = Ev.cap /\ cap' = Ev.cap /\ once' = Ev.once /\ Step
+\* unl: live sessions that were admitted while no limit was configured (they count against no limit)
+Init == l = 1 /\ lim = 0 /\ live = 0 /\ unl = 0 /\ tokens = 0 /\ cap = 0 /\ once = 0 /\ TLCSet(1, 0)
+Reset == Is("Reset") /\ lim' = 0 /\ live' = 0 /\ unl' = 0 /\ tokens' = Ev.cap /\ cap' = Ev.cap /\ once' = Ev.once /\ Step
 Min(a, b) == IF a < b THEN a ELSE b
 Op ==
   /\ Is("Op")
-  /\ CASE Ev.op = "limit" -> lim' = Ev.k /\ UNCHANGED live
-       [] Ev.op = "raise" -> lim' = Ev.k /\ UNCHANGED live
-       [] Ev.op \in {"connect", "burst"} -> /\ Ev.admitted = Min(Ev.k, lim - live)      \* admitted iff a slot is free
-                                            /\ live' = live + Ev.admitted /\ UNCHANGED lim
-       [] Ev.op \in {"disc", "close"} -> live' = live - 1 /\ UNCHANGED lim
+  /\ CASE Ev.op = "limit" -> lim' = Ev.k /\ UNCHANGED <<live, unl>>
+       [] Ev.op = "raise" -> lim' = Ev.k /\ UNCHANGED <<live, unl>>
+       [] Ev.op \in {"connect", "burst"} ->
+            IF lim = 0 THEN Ev.admitted = Ev.k /\ live' = live + Ev.k /\ unl' = unl + Ev.k /\ UNCHANGED lim     \* no limit: everybody is admitted
+            ELSE /\ Ev.admitted = Min(Ev.k, lim - (live - unl))      \* admitted iff a slot is free
+                 /\ live' = live + Ev.admitted /\ UNCHANGED <<lim, unl>>
+       [] Ev.op \in {"disc", "close"} -> live' = live - 1 /\ unl' = (IF unl > 0 THEN unl - 1 ELSE 0) /\ UNCHANGED lim   \* oldest first
   /\ UNCHANGED <<tokens, cap, once>> /\ Step
-Probe == Is("Probe") /\ Ev.count = live /\ Ev.working = live /\ live <= lim /\ Ev.rejectedopen = 0
-         /\ UNCHANGED <<lim, live, tokens, cap, once>> /\ Step
+Probe == Is("Probe") /\ Ev.count = live /\ Ev.working = live /\ (lim > 0 => live - unl <= lim) /\ Ev.rejectedopen = 0
+         /\ UNCHANGED <<lim, live, unl, tokens, cap, once>> /\ Step
 \* a burst of calls after `ticks` elapsed refill ticks (upper bound, one tick of slack)
 Calls ==
   /\ Is("Calls")
@@ -38,9 +41,9 @@ Calls ==
        /\ Ev.handlers = Ev.admitted                    \* rejected calls are not handled
        /\ Ev.rejected = Ev.sent - Ev.admitted /\ Ev.rejectederr = Ev.rejected   \* ... and get an error reply
        /\ tokens' = IF avail - Ev.admitted < 0 THEN 0 ELSE avail - Ev.admitted
-  /\ UNCHANGED <<lim, live, cap, once>> /\ Step
+  /\ UNCHANGED <<lim, live, unl, cap, once>> /\ Step
 Known == {"Reset", "Op", "Probe", "Calls", "Stuck"}
-Skip == l <= N /\ Ev.ev \notin Known /\ UNCHANGED <<lim, live, tokens, cap, once>> /\ Step
+Skip == l <= N /\ Ev.ev \notin Known /\ UNCHANGED <<lim, live, unl, tokens, cap, once>> /\ Step
 Next == Reset \/ Op \/ Probe \/ Calls \/ Skip
 Spec == Init /\ [][Next]_vars
 Accepted == PrintT(<<"HWM", TLCGet(1), N>>) /\ TRUE
